@@ -147,3 +147,14 @@ PROPS["C11"] = {
     "rule": "seeded: per case one default-event check (random date 1900..9999, two events with offsets, random zone), four coordinate-pair acceptance probes, and one site (60% random with |lat| <= 60, 10% at latitude boundaries/poles, 10% at the antimeridian, 20% near a reference city) on a date of 1900..2100 (solstices and equinoxes over-weighted). Non-trivial = site check completed; distinct by hash of (lat, lon, date). The open-at-noon/closed-at-midnight probe is made only when all five events fall on the same local calendar day (abstained_wrap otherwise).",
     "assumptions": ["the astronomy of the `sunrise` crate is trusted up to the physical-ordering checks", "tzf-rs/chrono-tz data are trusted; only their use is monitored"],
 }
+
+import c18 as _c18
+
+PROPS["C18"] = {
+    "workers": False,
+    "special": _c18.special,
+    "technique": "history monitor over fresh processes: concurrent results vs a sequential reference process, first use of the lazy tables raced through hook H3 gates/delays; thorough adds ThreadSanitizer and Miri",
+    "level_text": "A reference process evaluates a generated case list sequentially (also: repeated calls and calls interleaved with other expressions); then fresh processes (lazy tables uninitialised) start 2..64 threads on a barrier, every thread walking its own permutation of the cases on shared Arc values, clones and fresh parses, with a rendez-vous before first use of each lazy table and delays of 0 / 50 us / 5 ms injected inside the initialisers (hook H3); every answer (state, next_change, 16 intervals, 3 daily schedules, holiday-calendar facts, inferred zone and country) is compared with the reference and identifies (thread, step, case). Thorough repeats the race under ThreadSanitizer (-Zbuild-std) and a reduced race under Miri with several scheduler seeds. Exploration of interleavings: the evidence reports in how many runs first use was actually contended.",
+    "rule": "4 case lists (thorough 10) of 400 seeded (expression, context in {none, synthetic calendar, embedded country, fixed zone, coordinates -> inferred zone+country}, instant) x 50 (thorough 200) fresh processes each over threads {2,4,16,64} x initialiser delay {0, 50 us, 5 ms} x gate on/off. evaluations = single evaluations of a case; distinct_nontrivial = distinct cases by hash (all are non-trivial: each yields a multi-part answer).",
+    "assumptions": ["answers are compared as formatted strings of the public results", "Miri cannot run the tz-finder within budget: tz/country lazies are raced natively and under TSan only", "step budgets (hook H1, thread-local) make unbounded calls deterministic-cost; a budget cut is part of the compared answer"],
+}
